@@ -11,6 +11,8 @@ package sftp
 
 import (
 	"bytes"
+	"context"
+	"runtime"
 	"fmt"
 	"io"
 	"os"
@@ -109,7 +111,7 @@ func c03Run(u *vfUnit) {
 			}
 			shared = append(shared, f)
 		}
-		var calls, bad atomic.Int64
+		var calls, bad, cancelled atomic.Int64
 		var firstBad atomic.Value
 		report := func(kind, what string) {
 			bad.Add(1)
@@ -128,7 +130,24 @@ func c03Run(u *vfUnit) {
 				for it := 0; it < perG; it++ {
 					n := uint64(g)*100000 + uint64(it)*13 + uint64(rr.Intn(7))
 					calls.Add(1)
-					switch op := rr.Intn(12); op {
+					switch op := rr.Intn(13); op {
+					case 12: // a call abandoned through its context while its request is outstanding
+						ctx, cancel := context.WithCancel(context.Background())
+						cdone := make(chan struct{})
+						go func() {
+							// cancel soon after the request went out; the reply arrives later (the peer holds it)
+							for k := 0; k < 1+rr.Intn(20); k++ {
+								runtime.Gosched()
+							}
+							cancel()
+							close(cdone)
+						}()
+						ents, err := c.ReadDirContext(ctx, fmt.Sprintf("/d/%d", n))
+						<-cdone
+						cancelled.Add(1)
+						if err == nil && len(ents) != 0 {
+							report("ReadDirContext", fmt.Sprintf("ReadDirContext(/d/%d) returned %d entries for an empty listing", n, len(ents)))
+						}
 					case 0:
 						fi, err := c.Stat(fmt.Sprintf("/s/%d", n))
 						if err != nil || uint64(fi.Size()) != vfModelSize(n) || fi.ModTime().Unix() != int64(uint32(n+7)) || fi.Mode().Perm() != 0o644 {
@@ -252,6 +271,7 @@ func c03Run(u *vfUnit) {
 		u.Eval(fmt.Sprintf("g=%d/K=%d/P=%d/wrap=%v", nG, K, P, wrap))
 		u.Count("scenarios", 1)
 		u.Count("calls_checked", calls.Load())
+		u.Count("calls_abandoned_by_context", cancelled.Load())
 		u.Count("replies_out_of_order", int64(st.OutOfOrder))
 		u.Max("max_ids_in_flight", int64(model.maxIn))
 		u.Max("max_replies_held", int64(st.MaxHeld))
